@@ -753,10 +753,10 @@ var didAssumptions = []string{
 func C03(t Tier) int {
 	run := report.NewRun("C03", t.Name, "model_checking", "E1+E2")
 	sys := didSystem(didVariant{ID: "C03", Ctl: []string{"NB", "RS", "XI"}})
-	dl := deadline(t, 100*time.Second, 15*time.Minute)
-	bounds := []explore.Bounds{{Depth: 4, V: 1, Deadline: dl}}
+	dl := deadline(t, 150*time.Second, 15*time.Minute)
+	bounds := []explore.Bounds{{Depth: 5, V: 1, Deadline: dl}}
 	if t.Thorough {
-		bounds = []explore.Bounds{{Depth: 4, V: 1, Deadline: dl}, {Depth: 5, V: 1, Deadline: dl}, {Depth: 5, V: 2, Deadline: dl}, {Depth: 6, V: 2, Deadline: dl}}
+		bounds = []explore.Bounds{{Depth: 5, V: 1, Deadline: dl}, {Depth: 5, V: 2, Deadline: dl}, {Depth: 6, V: 2, Deadline: dl}, {Depth: 7, V: 2, Deadline: dl}}
 	}
 	RunGraph(run, sys, bounds, 6)
 	run.Assumptions = didAssumptions
@@ -766,10 +766,10 @@ func C03(t Tier) int {
 func C04(t Tier) int {
 	run := report.NewRun("C04", t.Name, "model_checking", "E1+E2")
 	sys := didSystem(didVariant{ID: "C04", Replays: true, EmptyID: true, Small: true, Ctl: []string{"NB", "RS", "XI"}})
-	dl := deadline(t, 100*time.Second, 15*time.Minute)
-	bounds := []explore.Bounds{{Depth: 4, V: 1, Deadline: dl}}
+	dl := deadline(t, 150*time.Second, 15*time.Minute)
+	bounds := []explore.Bounds{{Depth: 5, V: 1, Deadline: dl}}
 	if t.Thorough {
-		bounds = []explore.Bounds{{Depth: 4, V: 1, Deadline: dl}, {Depth: 5, V: 1, Deadline: dl}, {Depth: 6, V: 1, Deadline: dl}, {Depth: 6, V: 2, Deadline: dl}}
+		bounds = []explore.Bounds{{Depth: 5, V: 1, Deadline: dl}, {Depth: 6, V: 1, Deadline: dl}, {Depth: 6, V: 2, Deadline: dl}, {Depth: 7, V: 2, Deadline: dl}}
 	}
 	RunGraph(run, sys, bounds, 6)
 	run.Assumptions = append(didAssumptions, "Replay(#i): the i-th accepted message of the path (multiset order) re-submitted with identical inner bytes by the other relayer; canonical state includes the multiset of accepted messages")
@@ -779,17 +779,17 @@ func C04(t Tier) int {
 func C05(t Tier) int {
 	run := report.NewRun("C05", t.Name, "model_checking", "E1+E2")
 	sys := didSystem(didVariant{ID: "C05", EmptyID: true, Ctl: []string{"NB", "RS", "XI"}})
-	dl := deadline(t, 100*time.Second, 15*time.Minute)
-	bounds := []explore.Bounds{{Depth: 3, V: 2, Deadline: dl}}
+	dl := deadline(t, 150*time.Second, 15*time.Minute)
+	bounds := []explore.Bounds{{Depth: 4, V: 2, Deadline: dl}}
 	if t.Thorough {
-		bounds = []explore.Bounds{{Depth: 3, V: 2, Deadline: dl}, {Depth: 4, V: 2, Deadline: dl}, {Depth: 5, V: 2, Deadline: dl}, {Depth: 5, V: 3, Deadline: dl}}
+		bounds = []explore.Bounds{{Depth: 4, V: 2, Deadline: dl}, {Depth: 5, V: 2, Deadline: dl}, {Depth: 5, V: 3, Deadline: dl}, {Depth: 6, V: 3, Deadline: dl}}
 	}
 	RunGraph(run, sys, bounds, 6)
 	// second initial state: 120 live DIDs already exist (more than one default page of any paginated listing), all sorting
 	// before d1/d2, so that a tombstone written now is the last entry of the store when genesis is exported
 	st, tr := run.Coverage["states"].(int), run.Coverage["transitions"].(int64)
 	bulk := didSystem(didVariant{ID: "C05/bulk", Bulk: 120, Small: true, Ctl: []string{"XI", "RS"}})
-	RunGraph(run, bulk, []explore.Bounds{{Depth: 2, V: 1, Deadline: dl}}, 4)
+	RunGraph(run, bulk, []explore.Bounds{{Depth: 3, V: 1, Deadline: dl}}, 4)
 	run.Coverage["states"] = st + run.Coverage["states"].(int)
 	run.Coverage["transitions"] = tr + run.Coverage["transitions"].(int64)
 	run.Assumptions = append(didAssumptions, "V>=2 places a restart and an export/import after every deactivation reachable within the depth bound",
@@ -800,10 +800,10 @@ func C05(t Tier) int {
 func C11(t Tier) int {
 	run := report.NewRun("C11", t.Name, "model_checking", "E1+E2")
 	sys := didSystem(didVariant{ID: "C11", Mismatch: true, EmptyID: true, StrictID: true, Small: true, Ctl: []string{"NB", "XI"}})
-	dl := deadline(t, 100*time.Second, 15*time.Minute)
-	bounds := []explore.Bounds{{Depth: 4, V: 1, Deadline: dl}}
+	dl := deadline(t, 150*time.Second, 15*time.Minute)
+	bounds := []explore.Bounds{{Depth: 5, V: 1, Deadline: dl}}
 	if t.Thorough {
-		bounds = []explore.Bounds{{Depth: 4, V: 1, Deadline: dl}, {Depth: 5, V: 1, Deadline: dl}, {Depth: 6, V: 1, Deadline: dl}}
+		bounds = []explore.Bounds{{Depth: 5, V: 1, Deadline: dl}, {Depth: 6, V: 1, Deadline: dl}, {Depth: 6, V: 2, Deadline: dl}, {Depth: 7, V: 2, Deadline: dl}}
 	}
 	RunGraph(run, sys, bounds, 6)
 	run.Assumptions = append(didAssumptions, "did field, document id and signed payload are chosen independently in the Create/Update/Exec/Replay(did:=other) entries")
